@@ -25,7 +25,7 @@ Tails == {<<>>, <<";">>, <<";", "mode=0600">>, <<";", "a", ";", "b">>, <<";", "x
 Strings == {<<p, ":">> \o r \o t : p \in Protos, r \in Rests, t \in Tails}
             \cup {<<p>> \o t : p \in {"unix", "tcp", "P", "xyz", ""}, t \in {<<>>, <<";", "x">>}}
             \cup {<<";", "unix", ":", "P">>, <<"unix", ";", ":", "P">>, <<" ", "unix", ":", "P">>}
-Hists == {"fresh", "stale", "after", "client"}
+Hists == {"fresh", "stale", "after", "client", "busy"}      \* busy: somebody else is listening on that address already
 Cases == {[hist |-> h, addr |-> a] : h \in Hists, a \in Strings}
 
 RECURSIVE Join(_)
@@ -53,6 +53,11 @@ Allowed(c, o) ==
   LET p == ParseAddr(c.addr) IN
   IF c.hist = "client" THEN o.out \in {"ok", "err"}
   ELSE IF o.skip THEN \E i \in 1..Len(c.addr) : c.addr[i] = "H6"      \* (no IPv6 loopback here)
+  ELSE IF c.hist = "busy" THEN
+     \* the address is taken: Bind fails with an error (abstract names and tcp ports cannot be taken over; what happens
+     \* to a live filesystem socket is not stated), and the object can be bound to something else afterwards
+     /\ o.again = "ok"
+     /\ IF p.v = "refuse" \/ (p.v = "bind" /\ p.kind \in {"abs", "tcp"}) THEN o.out = "err" ELSE o.out \in {"ok", "err"}
   ELSE
   /\ o.again = "ok"                                    \* the service can always be bound again
   /\ \/ /\ p.v = "refuse" /\ o.out = "err"
